@@ -12,6 +12,7 @@ import ALV.Lemmas.C17Paused
 import ALV.Lemmas.C17Wait
 import ALV.Lemmas.C17FineLive
 import ALV.Lemmas.C17Rec
+import ALV.Lemmas.C17Spec
 import ALV.Common.Audit
 
 namespace ALV.Props.C17
@@ -92,6 +93,53 @@ example : let s := (runSched ⟨true, true, [true]⟩ (init [.play [101, 102, 10
       (mkSched [0,0,0,0,0,0,0,0,0, 1,1,1,1,1,1,1,1,1, 0,0,0,0,0])).1
     (s.log = [.playOk 0, .closeOk [false] 0] ∧ s.players.map (·.written) = [[[101, 102]]] ∧
       s.players.map (·.fail) = [true] ∧ allDone s = true ∧ closedAfter s = true) := by decide
+
+/-- **C17.1e chunks_are_the_spec** — the chunk sequence in the words of the property, as the SPEC
+function the tie compares the device's bytes with (`chunksSpec` = `groups cs (padded cs audio)`):
+`chunks(audio)` IS `chunksSpec`; `chunksSpec` consists of chunks of exactly `cs` samples whose
+concatenation is `padded` = the audio followed by `padLen` (< `cs`) zeros; and it is the ONLY such
+sequence — any list of chunks of `cs` samples with that concatenation is `chunksSpec`: nothing lost,
+duplicated or reordered. -/
+theorem chunks_are_the_spec (cs : Nat) (hs : 0 < cs) (audio : List Int) :
+    chunksOf cs audio = chunksSpec cs audio ∧
+    (chunksSpec cs audio).flatten = padded cs audio ∧
+    padded cs audio = audio ++ List.replicate (padLen cs audio.length) 0 ∧
+    (∀ c ∈ chunksSpec cs audio, c.length = cs) ∧
+    (∀ l : List (List Int), (∀ c ∈ l, c.length = cs) → l.flatten = padded cs audio →
+      l = chunksSpec cs audio) := by
+  refine ⟨chunksOf_eq_chunksSpec cs hs audio, groups_flatten cs hs _ _ rfl, rfl,
+    groups_len cs hs _ _ rfl (padded_len_mod cs hs audio), fun l hl hf => ?_⟩
+  unfold chunksSpec
+  rw [← hf, groups_unique cs hs l hl]
+
+/-- **C17.1f delivered_is_spec** — the delivery clause as the executable predicate `deliveredOK` of
+the specification (`Spec/C17.lean`): in EVERY reachable state, for every player, what the device
+stream has received is a prefix of `chunksSpec cs audio`, and all of it once the player has left
+its loop un-stopped and its iterable did not raise. -/
+theorem delivered_is_spec {cfg : Cfg} {script : List Cmd} {s : State} (h : Reach cfg script s)
+    (k : Nat) (p : Player) (hp : s.players[k]? = some p) (hcs : 0 < p.cs) :
+    p.written <+: chunksSpec p.cs p.audio ∧
+    (afterLoop p.pc = true → p.halting = false → p.fail = false →
+      p.written = chunksSpec p.cs p.audio) ∧
+    deliveredOK p.cs p.audio p.written (afterLoop p.pc && !p.halting && !p.fail) = true := by
+  obtain ⟨h1, _, h3⟩ := delivered_prefix h k p hp
+  rw [chunksOf_eq_chunksSpec p.cs hcs] at h1 h3
+  refine ⟨h1, h3, ?_⟩
+  unfold deliveredOK
+  simp only [Bool.and_eq_true, Bool.or_eq_true, Bool.not_eq_true', beq_iff_eq]
+  refine ⟨(List.prefix_iff_eq_take.mp h1), ?_⟩
+  cases ha : afterLoop p.pc <;> cases hh : p.halting <;> cases hf : p.fail <;> simp
+  exact h3 ha hh hf
+
+/-- non-vacuity: three samples in chunks of two; the spec value, and `deliveredOK` on a partial
+and on the complete delivery (and its refusal of a reordered / duplicated / short one) -/
+example : chunksSpec 2 [1, 2, 3] = [[1, 2], [3, 0]] ∧ padded 2 [1, 2, 3] = [1, 2, 3, 0] ∧
+    deliveredOK 2 [1, 2, 3] [[1, 2]] false = true ∧ deliveredOK 2 [1, 2, 3] [[1, 2], [3, 0]] true = true ∧
+    deliveredOK 2 [1, 2, 3] [[1, 2]] true = false ∧ deliveredOK 2 [1, 2, 3] [[3, 0]] false = false ∧
+    deliveredOK 2 [1, 2, 3] [[1, 2], [1, 2]] false = false := by
+  have e : chunksSpec 2 [1, 2, 3] = [[1, 2], [3, 0]] := by
+    rw [← chunksOf_eq_chunksSpec 2 (by decide)]; decide
+  refine ⟨e, by decide, ?_, ?_, ?_, ?_, ?_⟩ <;> simp [deliveredOK, e]
 
 /-- **C17.2 terminate_once** — the backend is terminated at most once, whatever the schedule
 and however often `close` is called. -/
@@ -565,6 +613,59 @@ example : (fineRun exFc exScript [0,0,0,0,0,0,0,0,0,0,0,0,0,0, 1,1, 2,2, 1]).asm
       [[103], [202]] ∧
     pulling (fineRun exFc exScript [0,0,0,0,0,0,0,0,0,0,0,0,0,0, 1,1, 2,2, 1]) 1 = true := by decide
 
+/-- **C17.15b pull_moves_one_sample** — what the tie labels `it<k>.pull` (`pulling`): the player is
+at `write` with a chunk that is not complete; its step is always enabled and moves exactly ONE sample
+from the unpulled rest of ITS OWN iterable to the end of ITS OWN chunk buffer, changing nothing else
+(no device stream, no other player's buffer) — or, when nothing is left and the iterable raises, it
+is the exception step (to the epilogue with the repaired `run`, to the thread's death without). -/
+theorem pull_moves_one_sample (fc : FCfg) (fs fs' : FState) (i : Nat)
+    (hpull : pulling fs i = true) (h : stepF fc fs (.player i) = some fs') :
+    enabledF fc fs (.player i) = true ∧
+    ∃ p a, fs.base.players[i]? = some p ∧ fs.asm[i]? = some a ∧ p.pc = .write ∧
+      a.buf.length ≠ p.cs ∧
+      ((∃ x r, a.rest = x :: r ∧ fs'.base = fs.base ∧
+          fs'.asm = fs.asm.set i { a with rest := r, buf := a.buf ++ [x] }) ∨
+       (a.rest = [] ∧ a.fail = true ∧ fs'.asm = fs.asm ∧
+          fs'.base = setP fs.base i { p with pc := if fc.dieFixed then .finAcq else .done })) := by
+  refine ⟨pull_enabled fc fs i hpull, ?_⟩
+  have hpull' := hpull
+  unfold pulling at hpull'
+  cases hp : fs.base.players[i]? with
+  | none => rw [hp] at hpull'; simp at hpull'
+  | some p =>
+    cases ha : fs.asm[i]? with
+    | none => rw [hp, ha] at hpull'; simp at hpull'
+    | some a =>
+      rw [hp, ha] at hpull'
+      simp only [Bool.and_eq_true, beq_iff_eq, Bool.not_eq_true'] at hpull'
+      refine ⟨p, a, rfl, rfl, hpull'.1, ?_, pull_step fc fs fs' i p a hp ha hpull h⟩
+      intro hl
+      have := hpull'.2
+      unfold chunkReady at this
+      simp [hl] at this
+
+/-- non-vacuity: the pull of `202` by player 1 while player 0's buffer holds `[101, 102]` -/
+example : let fs := fineRun exFc exScript [0,0,0,0,0,0,0,0,0,0,0,0,0,0, 1,1, 2,2, 1]
+    (pulling fs 1 = true ∧ (stepF exFc fs (.player 1)).map (fun f => f.asm.map (·.buf)) =
+      some [[101, 102], [201, 202]]) := by decide
+
+/-- **C17.16e fine_delivered_is_spec** — the fine assembly against the SPEC function: in every
+reachable state of the fine system (pre-emption between any two pulls, any number of players) a
+device stream holds a prefix of `chunksSpec cs audio` — groups of exactly `cs` frames of the audio
+followed by the zero padding — and all of it once its player left the loop un-stopped. -/
+theorem fine_delivered_is_spec {fc : FCfg} {script : List Cmd} {fs : FState} (hsd : Sound fc)
+    (hpos : PosCs script) (h : ReachF fc script fs) (k : Nat) (p : Player)
+    (hp : fs.base.players[k]? = some p) :
+    p.written <+: chunksSpec p.cs p.audio ∧
+    (afterLoop p.pc = true → p.halting = false → p.fail = false →
+      p.written = chunksSpec p.cs p.audio) ∧
+    deliveredOK p.cs p.audio p.written (afterLoop p.pc && !p.halting && !p.fail) = true := by
+  have hr := (sim_reach hsd hpos h).1
+  obtain ⟨hl, hall⟩ := (sim_reach hsd hpos h).2
+  have hk : k < fs.asm.length := by have := lt_of_getElem? hp; omega
+  have hcs : 0 < p.cs := (hall k p fs.asm[k] hp (List.getElem?_eq_getElem hk)).pos
+  exact delivered_is_spec hr k p hp hcs
+
 /-- **C17.16 fine_refines** — refinement: when no played iterable raises (and chunk sizes are
 positive), the coarse state carried by ANY reachable state of the fine system is reachable in the
 coarse system with the same script and configuration: a fine step is a coarse step or a stutter
@@ -880,6 +981,33 @@ theorem rec_closed_after_close (cmds : List RCmd) (hc : RCmd.close ∈ cmds) :
       rw [inv.fin hf] at this; cases this
   obtain ⟨_, h2, h3⟩ := inv.c.recs i r hr
   exact ⟨hd, by rw [h2, hd]; rfl, (h3 hd).1, (h3 hd).2⟩
+
+open ALV.C17Rec in
+/-- **C17.23d rec_remove_by_identity** — the repaired `recording_finished` (c60d4c5, finding D26)
+is `self._recordings = [r for r in self._recordings if r is not recst]`; the model removes with
+`List.erase` on stream indices.  In every state of every history the two agree (a stream is listed at
+most once), and removing a stream never disturbs another one: `take` on stream `i` leaves exactly
+the streams `≠ i` that were listed, in their order. -/
+theorem rec_remove_by_identity (cmds : List RCmd) (i n : Nat) :
+    let s := run C17Rec.init cmds
+    s.recordings.erase i = s.recordings.filter (· != i) ∧
+    ((takeOn s i n).2.recordings = s.recordings ∨
+     (takeOn s i n).2.recordings = s.recordings.filter (· != i)) := by
+  have inv := run_si cmds _ si_init
+  have e := List.Nodup.erase_eq_filter inv.c.nodup i
+  refine ⟨e, ?_⟩
+  unfold takeOn
+  split
+  · exact Or.inl rfl
+  · simp only
+    split
+    · exact Or.inr e
+    · exact Or.inl rfl
+
+/-- non-vacuity (D26's witness): two active streams, the one that is not the oldest finishes first -/
+example : (C17Rec.run C17Rec.init [.record 1, .record 1, .stop 1, .take 1 1]).recordings = [0] ∧
+    (C17Rec.run C17Rec.init [.record 1, .record 1, .close]).recordings = [] ∧
+    (C17Rec.run C17Rec.init [.record 1, .record 1, .close]).terminated = 1 := by decide
 
 /-- non-vacuity: two streams (chunks of 3 and of 2), one read into the middle of its second chunk
 and stopped, the other never stopped; `close` drains both, the last one first -/
